@@ -95,7 +95,12 @@ type world struct {
 	txCount  int
 	forceFrom *vh.Acct // next vestTx: use this funder
 	forceKind string   // next vestTx: use this vesting kind
+	forceToRaw []byte  // next vestMsg: raw target address bytes (any length)
 }
+
+type rawAddr []byte
+
+func (a rawAddr) Bytes() []byte { return []byte(a) }
 
 func newWorld(run *vh.Run, label string, wi int) *world {
 	r := run.RNG("world", wi)
@@ -217,7 +222,11 @@ func (w *world) proofTx(scn, class string, signer, submitter *vh.Acct, items []p
 
 var vestKinds = []string{"delayed", "continuous", "periodic", "permlock"}
 
-func (w *world) vestMsg(r *vh.RNG, from *vh.Acct, to common.Address, kind string) (sdk.Msg, *big.Int) {
+func (w *world) vestMsg(r *vh.RNG, from *vh.Acct, toAddr common.Address, kind string) (sdk.Msg, *big.Int) {
+	to := rawAddr(toAddr.Bytes())
+	if w.forceToRaw != nil { // scenario-chosen raw target (an address that is not 20 bytes long)
+		to, w.forceToRaw = rawAddr(w.forceToRaw), nil
+	}
 	amt := big.NewInt(int64(1000 + r.Intn(1_000_000_000)))
 	end := w.c.Time.Unix() + int64(3600+r.Intn(1_000_000))
 	switch kind {
@@ -376,6 +385,19 @@ func (w *world) genScenario(r *vh.RNG) *scenario {
 		}
 		k1, k2 := vh.Pick(r, vestKinds), vh.Pick(r, vestKinds)
 		s.steps[1], s.steps[2] = mk(k1), mk(k2)
+	case k < 21: // targets whose address is LONGER than 20 bytes and ends in the address of a proven account (no key controls
+		// such an address and it can hold no proof of its own): every kind, top-level
+		s.name = "vest-long-address-ending-in-proven-eoa"
+		a := vh.NewAcct(r)
+		s.steps[0] = func() []*txDesc { return []*txDesc{w.validProof(r, s.name, a)} }
+		mk := func(kind string, n int) func() []*txDesc {
+			return func() []*txDesc {
+				w.forceKind = kind
+				w.forceToRaw = append(r.Bytes(n-20), a.Addr.Bytes()...)
+				return []*txDesc{w.vestTx(r, s.name, "long-address", a.Addr, vh.Pick(r, []string{"top", "multi:send,vest"}), 0)}
+			}
+		}
+		s.steps[1], s.steps[2] = mk(vh.Pick(r, vestKinds), 32), mk(vh.Pick(r, vestKinds), vh.Pick(r, []int{21, 32, 40}))
 	case k < 30: // unproven targets along every route
 		s.name = "vest-unproven"
 		s.steps[1] = func() []*txDesc {
